@@ -3,6 +3,7 @@
   Property theorems over `EchoVerif.Model.Pass` (the model of `super_tick_inner`).
 -/
 import EchoVerif.Lemmas.Pass
+import EchoVerif.Lemmas.PassTwin
 import EchoVerif.Generated.FaultScope
 
 set_option linter.unusedSimpArgs false
@@ -10,6 +11,9 @@ set_option linter.unusedVariables false
 
 namespace EchoVerif.C09
 open EchoVerif EchoVerif.Pass SMap LinOrd
+
+def emptyCorr' : Corr :=
+  { byTid := [], bySub := [], byTicket := [], byRef := [], byBasis := [], pendingSubs := [] }
 
 /-! ### small facts about the pass wrapper -/
 
@@ -401,6 +405,80 @@ theorem resolve_releases (i : Nat) (fs fs' : Faults) (r : FaultRec) (k : HeadKey
   · intro k' hne
     exact find?_erase_ne hne hs
 
+/-! ### recovery: the retried pass equals the pass of a never-failed twin -/
+
+/-- the quarantine sets stay sorted maps along every run (needed by `retry_equals_twin`) -/
+theorem pass_faults_sorted {rt rt' : Runtime} {pv pv' : Prov} {out : PassOut} (wf : WF rt pv)
+    (hs : Sorted rt.faults.faultedHeads) (inj : Option (Nat × Fail))
+    (h : pass inj rt pv = (out, rt', pv')) : Sorted rt'.faults.faultedHeads := by
+  rcases pass_faults wf inj h with e | ⟨sc, e⟩
+  · rw [e]; exact hs
+  · rw [e]; exact sorted_recordFault sc _ hs
+
+theorem resolve_faults_sorted (i : Nat) (fs : Faults) (hs : Sorted fs.faultedHeads) :
+    Sorted (resolve i fs).2.faultedHeads := sorted_resolve i fs hs
+
+/-- **pass_reads_quarantine_only.** The fault evidence influences a pass only through `faulted_heads`
+    and `runtime_fault`: records, their status and the generation counter are never read. -/
+theorem pass_reads_quarantine_only (inj : Option (Nat × Fail)) (rt : Runtime) (pv : Prov)
+    (fs1 fs2 : Faults) (hH : fs1.faultedHeads = fs2.faultedHeads)
+    (hR : fs1.runtimeFault = fs2.runtimeFault) :
+    (pass inj (withFaults rt fs1) pv).1 = (pass inj (withFaults rt fs2) pv).1 ∧
+    (pass inj (withFaults rt fs1) pv).2.2 = (pass inj (withFaults rt fs2) pv).2.2 ∧
+    ∀ F, withFaults (pass inj (withFaults rt fs1) pv).2.1 F =
+      withFaults (pass inj (withFaults rt fs2) pv).2.1 F :=
+  pass_faults_congr inj rt pv fs1 fs2 hH hR
+
+/-- **retry_equals_twin.** For every well-formed state, every failure plan and every honest failure: if
+    a pass fails and records a fault, then after trusted recovery of exactly that fault the NEXT pass
+    (under any failure plan `inj'`) has the same outcome (step records / error), the same provenance and
+    the same runtime - heads, inboxes, frontiers, ticks, submissions, tickets, all correlation indexes -
+    as the same pass on the twin runtime that never ran the failed pass. The only difference is the
+    evidence: the resolved record and the advanced generation counter. -/
+theorem retry_equals_twin {rt rt1 : Runtime} {pv pv1 : Prov} {out : PassOut} (wf : WF rt pv)
+    (hs : Sorted rt.faults.faultedHeads) (inj inj' : Option (Nat × Fail))
+    (h : pass inj rt pv = (out, rt1, pv1)) (hfail : ∀ recs, out ≠ .ok recs)
+    (hrec : rt1.faults ≠ rt.faults) :
+    (resolve rt.faults.records.length rt1.faults).1 = .ok ∧
+    (pass inj' (withFaults rt1 (resolve rt.faults.records.length rt1.faults).2) pv1).1 =
+      (pass inj' rt pv).1 ∧
+    (pass inj' (withFaults rt1 (resolve rt.faults.records.length rt1.faults).2) pv1).2.2 =
+      (pass inj' rt pv).2.2 ∧
+    ∀ F, withFaults (pass inj' (withFaults rt1 (resolve rt.faults.records.length rt1.faults).2) pv1).2.1 F =
+      withFaults (pass inj' rt pv).2.1 F := by
+  obtain ⟨a, rfl⟩ := pass_atomic wf inj h hfail
+  have e1 : rt1 = withFaults rt rt1.faults := by
+    rw [← a, withFaults_withFaults, withFaults_self]
+  rcases pass_faults wf inj h with e | ⟨sc, e⟩
+  · exact absurd e hrec
+  · have hnew : recordFault sc rt.faults ≠ rt.faults := by rw [← e]; exact hrec
+    obtain ⟨r1, r2, r3, _, _⟩ := resolve_recordFault sc rt.faults hs hnew
+    rw [← e] at r1 r2 r3
+    refine ⟨r1, ?_⟩
+    have c := pass_faults_congr inj' rt pv1
+      (resolve rt.faults.records.length rt1.faults).2 rt.faults r2 r3
+    rw [withFaults_self] at c
+    have e2 : withFaults rt1 (resolve rt.faults.records.length rt1.faults).2 =
+        withFaults rt (resolve rt.faults.records.length rt1.faults).2 := by
+      rw [e1, withFaults_withFaults]
+    rw [e2]
+    exact c
+
+/-- replaying the undo log in PUSH order instead of reverse order is wrong as soon as two entries of
+    one pass share a key (two tickets correlated under one current-basis key): witness -/
+theorem rollback_order_matters :
+    ∃ (c : Corr) (e1 e2 : RbEntry) (r1 r2 : CorrRec),
+      rollbackCorr [e1, e2] (writeCorr e2 r2 (writeCorr e1 r1 c)) = c ∧
+      [e1, e2].foldl (fun c e => undoEntry e c) (writeCorr e2 r2 (writeCorr e1 r1 c)) ≠ c := by
+  let c : Corr := emptyCorr'
+  let rf1 : Ref := ((1, 1, 1), (((1, 1), 5), 100))
+  let rf2 : Ref := ((1, 1, 1), (((1, 1), 6), 101))
+  let e1 := mkEntry c ((1, 1), 5) 100 rf1 (1, 1)
+  let c1 := writeCorr e1 { target := ((1, 1), 5), ticket := 100, ref := rf1 } c
+  let e2 := mkEntry c1 ((1, 1), 6) 101 rf2 (1, 1)
+  exact ⟨c, e1, e2, { target := ((1, 1), 5), ticket := 100, ref := rf1 },
+    { target := ((1, 1), 6), ticket := 101, ref := rf2 }, by decide, by decide⟩
+
 /-! ### the fault-scope table (extracted from `scheduler_fault_scope_for_error` on every run) -/
 
 /-- **scope_table.** The model's scope classification is the table written in the Rust source. -/
@@ -557,5 +635,13 @@ example : (pass (some (2, .err .engine)) demoRt demoPv) =
      withFaults demoRt { records := [{ gen := 1, scope := .head (2, 1), active := true }]
                          faultedHeads := [((2, 1), 1)], runtimeFault := none, nextGen := 1 },
      demoPv) := by decide
+
+/-- `retry_equals_twin` is not vacuous: the demo pass fails at its third head after the first two heads
+    correlated a ticket each; the fault is recorded (hypothesis `hrec`) and resolving it succeeds -/
+example : (pass (some (2, .err .engine)) demoRt demoPv).2.1.faults ≠ demoRt.faults ∧
+    (resolve demoRt.faults.records.length (pass (some (2, .err .engine)) demoRt demoPv).2.1.faults).1 = .ok ∧
+    (pass none (withFaults (pass (some (2, .err .engine)) demoRt demoPv).2.1
+      (resolve 0 (pass (some (2, .err .engine)) demoRt demoPv).2.1.faults).2) demoPv).1 =
+      (pass none demoRt demoPv).1 := by decide
 
 end EchoVerif.C09
